@@ -345,6 +345,6 @@ func init() {
 			}
 			return w
 		},
-		BudgetS: [2]int{120, 900},
+		BudgetS: [2]int{120, 2400},
 	})
 }
